@@ -1,7 +1,7 @@
 """C13 (selection part) -- the chosen split has the lowest selection criterion among the candidates.
 
-The real DailyModel._best_combination is executed for k candidates whose criteria are symbolic reals or NaN
-(every NaN pattern for k <= 4): it returns the FIRST candidate whose criterion is <= every other finite criterion,
+The real DailyModel._best_combination is executed for k candidates whose criteria are symbolic reals, NaN or -inf
+(every pattern of the three kinds for k <= 4): it returns the FIRST candidate whose criterion is <= every other finite criterion,
 never a NaN-scored candidate, and None only when every criterion is NaN.  (The argmin loop is over a list whose
 length is fixed per case; the quantification over criterion values is symbolic.)"""
 from pyvc.api import *  # noqa
@@ -18,31 +18,43 @@ def criteria_effect(self, combination):
 def patterns(k):
     out = [[]]
     for _ in range(k):
-        out = [p + [b] for p in out for b in [False, True]]
+        out = [p + [b] for p in out for b in ["num", "nan", "ninf"]]
     return out
 
 
-CASES = [{"k": k, "nan": p} for k in [1, 2, 3, 4] for p in patterns(k)]
+CASES = [{"k": k, "kind": p} for k in [1, 2, 3, 4] for p in patterns(k)]
+NEG_INF = float("-inf")
 
 
 @harness("C13.argmin", prop="C13", cases=CASES)
-def argmin(k, nan, c0: Real, c1: Real, c2: Real, c3: Real):
+def argmin(k, kind, c0: Real, c1: Real, c2: Real, c3: Real):
+    """criteria are symbolic reals, NaN (never chosen) or -inf (a split that fits exactly: the lowest possible criterion)"""
     names = ["fw-su_sh_wi", "fw-su__fw-sh_wi", "wd-su_sh_wi__we-su_sh_wi", "fw-su__fw-sh__fw-wi"][:k]
     vals = [c0, c1, c2, c3][:k]
     crit = {}
     for i in range(k):
-        crit[names[i]] = nan_value() if nan[i] else vals[i]
+        if kind[i] == "nan":
+            crit[names[i]] = nan_value()
+        elif kind[i] == "ninf":
+            crit[names[i]] = NEG_INF
+        else:
+            crit[names[i]] = vals[i]
     m = new_object(DM, combinations=list(names), ghost_criteria=crit)
     best = m._best_combination(print_out=False)
-    finite = [i for i in range(k) if not nan[i]]
-    if len(finite) == 0:
+    nan = [kk == "nan" for kk in kind]
+    exact = [i for i in range(k) if kind[i] == "ninf"]
+    finite = [i for i in range(k) if kind[i] == "num"]
+    if len(finite) + len(exact) == 0:
         check("C13.argmin.none_iff_all_nan", best is None)
     else:
         check("C13.argmin.member", best in names)
         if best in names:
             j = names.index(best)
             check("C13.argmin.not_nan", not nan[j])
-            if not nan[j]:
+            if len(exact) > 0:
+                # an exactly fitting split has the lowest criterion there is: the first of them is chosen
+                check("C13.argmin.lowest", j == exact[0])
+            elif not nan[j]:
                 check("C13.argmin.lowest", And(*[vals[j] <= vals[i] for i in finite]))
                 # first such: every earlier finite candidate is strictly worse
                 check("C13.argmin.first", And(*[vals[i] > vals[j] for i in finite if i < j]))
